@@ -453,8 +453,10 @@ def no_realloc(ctx, taint, wiping_adts):
                             verdict = capp.get((), 0) >= bounded
                             vdet = 'capacity %d, filled with at most %d (%s, each length bounded by the dominating guards)' % (capp.get((), 0), bounded, total)
                         elif bounded is None and ilen.is_const(capp) and not ilen.is_const(total):
-                            verdict = False
-                            vdet = 'capacity %d, filled with %s, for which no upper bound is established' % (capp.get((), 0), total)
+                            # inconclusive: a constant capacity against a symbolic fill count with no established bound is not a proof
+                            # of excess; reported as not decided
+                            rep.idiom_absent('R-C20-3', key, 'constant capacity %d against fills %s: no upper bound of the symbolic part is established (not decided)' % (capp.get((), 0), total))
+                            continue
                 except Exception as ex:
                     verdict = None
                     vdet = 'not evaluated (%s)' % ex
